@@ -293,6 +293,7 @@ func c14Extra(kinds int, what string) {
 	var msgs []*Message
 	keys := []string{"k", "l"}
 	desc := ""
+	tcAt := vchoose("tcAt", 4) // 3: no chunk carries tool calls
 	for i := 0; i < 3; i++ {
 		m := &Message{Role: Assistant}
 		if vrange("has", 0, 1) == 1 {
@@ -303,9 +304,23 @@ func c14Extra(kinds int, what string) {
 		} else {
 			desc += "-,"
 		}
+		if i == tcAt { // one chunk also carries a tool-call fragment (as every already concatenated message does)
+			ix := 0
+			m.ToolCalls = []ToolCall{{Index: &ix, ID: "c", Function: FunctionCall{Name: "t", Arguments: "x"}}}
+			desc += "+tc,"
+		}
 		msgs = append(msgs, m)
 	}
-	c14Rechunk(msgs, what+" "+desc)
+	all := c14Rechunk(msgs, what+" "+desc)
+	if all != nil && tcAt < 3 {
+		vassert(len(all.ToolCalls) == 1, "the tool call of the chunk is kept next to the extras")
+		for _, m := range msgs {
+			for k := range m.Extra {
+				_, has := all.Extra[k]
+				vassert(has, "the extras of every chunk reach the result, also of a chunk that carries tool calls: "+desc)
+			}
+		}
+	}
 }
 
 func VerifC14Extra()    { c14Extra(3, "extra") }
